@@ -24,6 +24,8 @@ import types
 import itertools
 import random
 import threading as _real_threading
+import time as _real_time
+import queue as _real_queue
 
 REPO = os.environ.get("VERIF_REPO", "/repo")
 if REPO not in sys.path:
@@ -74,7 +76,22 @@ class _Clock:
 
 
 _CLOCK = _Clock()
-_faketime = types.SimpleNamespace(time=_CLOCK.time, sleep=_CLOCK.sleep)
+
+
+class _Fallback(types.SimpleNamespace):
+    """a replaced module: the virtual members first, everything else from the real module (so that a harmless change of
+    the stack - another clock function, a lock type - does not break the harness)"""
+
+    def __init__(self, real, **kw):
+        super().__init__(**kw)
+        self.__dict__["_real"] = real
+
+    def __getattr__(self, name):
+        return getattr(self.__dict__["_real"], name)
+
+
+_faketime = _Fallback(_real_time, time=_CLOCK.time, sleep=_CLOCK.sleep, monotonic=_CLOCK.time, perf_counter=_CLOCK.time,
+                      time_ns=lambda: int(_CLOCK.time() * 1e9), monotonic_ns=lambda: int(_CLOCK.time() * 1e9))
 
 
 class WakeQueue:
@@ -91,13 +108,44 @@ class WakeQueue:
         if s is not None and self.node is not None and s.log_tokens:
             s.log({"ev": "token", "node": self.node.name})
 
+    # the rest of the queue.Queue interface, so that a harmless rewrite of the job loop does not break the harness
+    def put_nowait(self, x):
+        self.put(x)
+
+    def qsize(self):
+        return self.n
+
+    def empty(self):
+        return self.n == 0
+
+    def full(self):
+        return False
+
+    def task_done(self):
+        pass
+
+    def join(self):
+        pass
+
+    def get_nowait(self):
+        return self.get(False)
+
     def get(self, block=True, timeout=None):
         s = _sim()
+        if not block or (timeout is not None and timeout <= 0):
+            if self.n > 0:
+                self.n -= 1
+                if self.node is not None:     # a token taken without sleeping: visible in the projected token count
+                    s.log({"ev": "note", "node": self.node.name, "what": "wake-up token taken by a non-blocking get"})
+                return 1
+            raise FakeEmpty()
         if self.n > 0:
             self.n -= 1
             if self.node is not None:
                 s.log({"ev": "sleep", "node": self.node.name, "tok": 1, "until": 0})
             return 1
+        if timeout is None:
+            timeout = 3600.0
         self.sleep_until = s.now_us + int(round(timeout * 1e6)) + s.wake_lat_us
         if self.node is not None:
             s.log({"ev": "sleep", "node": self.node.name, "tok": 0,
@@ -131,10 +179,28 @@ class AppQueue:
     def qsize(self):
         return len(self.items)
 
+    def put_nowait(self, x):
+        self.put(x)
+
+    def empty(self):
+        return not self.items
+
+    def full(self):
+        return False
+
+    def task_done(self):
+        pass
+
+    def join(self):
+        pass
+
+    def get_nowait(self):
+        return self.get(False)
+
     def get(self, block=True, timeout=None):
         if self.items:
             return self.items.pop(0)
-        if not block:
+        if not block or (timeout is not None and timeout <= 0):
             raise FakeEmpty()
         s = _sim()
         end = s.now_us + int(round((timeout if timeout is not None else 3600) * 1e6))
@@ -154,10 +220,9 @@ class AppQueue:
         raise FakeEmpty()
 
 
-_fakequeue_ecu = types.SimpleNamespace(Queue=WakeQueue, Empty=FakeEmpty)
-_fakethreading = types.SimpleNamespace(Thread=FakeThread, Event=_real_threading.Event,
-                                       Lock=_real_threading.Lock)
-_appqueue = types.SimpleNamespace(Queue=AppQueue, Empty=FakeEmpty)
+_fakequeue_ecu = _Fallback(_real_queue, Queue=WakeQueue, SimpleQueue=WakeQueue, Empty=FakeEmpty)
+_fakethreading = _Fallback(_real_threading, Thread=FakeThread)
+_appqueue = _Fallback(_real_queue, Queue=AppQueue, SimpleQueue=AppQueue, Empty=FakeEmpty)
 
 
 def install():
